@@ -791,7 +791,10 @@ pub fn recovery(trace: &[Value]) -> Vec<Value> {
         let d = |k: &str| post["stats"][k].as_i64().unwrap_or(0) - pre["stats"][k].as_i64().unwrap_or(0);
         let zacc_change = pre["zk"] != post["zk"] || pre["zacc"] != post["zacc"];
         let retry = ev == "Rx" && e["otypes"].as_str().unwrap_or("").contains('R');
+        // the sending rate the application has limited this side to (bytes per second; -1: none)
+        let rate = cfgx[if n == 0 { "server" } else { "client" }]["max_bytes_per_sec"].as_i64().unwrap_or(-1).min(1 << 30);
         v.push(json!({"ev":"Step","kind":ev,"t":e["t"],"new":newp,"dgl":dgl,"untracked":untracked,"left":left,"acked":acked,"disc":disc,
+            "rate":rate,"mtu":post["path"]["mtu"],
             "dlost":d("lost") + d("lprobe"),"lost":post["stats"]["lost"],"cev":post["stats"]["cev"],
             "ifb":post["path"]["ifb"],"ifae":post["path"]["ifae"],
             "pifb":if has_prev { post["prev"]["ifb"].clone() } else { json!(-1) },
